@@ -17,13 +17,15 @@ SVC = ["terminal", "user-manager", "user-session-manager"]
 VERBS = ["stop", "start", "pause", "resume", "restart", "disable", "enable"]
 
 
-def ip_of(i: int) -> str:
-    return f"192.168.0.{10 + i}"
+def ip_of(i: int, topo: str = "switch") -> str:
+    """switch: all hosts in one subnet; routed: host i alone in subnet 10.0.<i+1>.0/24 behind port i+1 of one router"""
+    return f"10.0.{i + 1}.10" if topo == "routed" else f"192.168.0.{10 + i}"
 
 
 def _ip_index(ip) -> int:
     """inverse of ip_of (also for addresses no node owns)"""
-    return int(str(ip).split(".")[-1]) - 10
+    parts = str(ip).split(".")
+    return int(parts[2]) - 1 if parts[0] == "10" else int(parts[3]) - 10
 
 
 # ------------------------------------------------------------------------------------------ protocol lines
@@ -74,17 +76,24 @@ def op_line(op: dict) -> str:
     k = op["op"]
     if k == "enable":
         return f"enable {op['y']} {op['u']}"
+    if k == "cfguser":
+        return f"cfguser {op['y']} {op['u']} {op['p']} {1 if op['admin'] else 0}"
     if k == "llogin":
         return f"llogin {op['y']} {op['u']} {op['p']}"
     if k == "llogout":
         return f"llogout {op['y']}"
     if k == "tick":
         return "tick"
+    if k == "block":
+        # a DENY rule for another port (decoy) blocks nothing the terminal sends
+        return "noop" if op.get("how") == "decoy" else f"block {op['x']} {op['y']} {int(op['on'])}"
     return " ".join(["req", str(exec_node(op))] + cmd_tokens(op))
 
 
 def new_line(cfg: dict) -> str:
-    return f"new {cfg['n']} {cfg['su']} {cfg['sd']} {cfg['rd']} {cfg['max']} {cfg['lto']} {cfg['rto']}"
+    # last token: routed topology = a frame a host addresses to itself comes back through its gateway
+    return (f"new {cfg['n']} {cfg['su']} {cfg['sd']} {cfg['rd']} {cfg['max']} {cfg['lto']} {cfg['rto']} "
+            f"{1 if cfg.get('topo') == 'routed' else 0}")
 
 
 def model_lines(case: dict) -> List[str]:
@@ -128,21 +137,47 @@ class Impl:
         from primaite.simulator.sim_container import Simulation
 
         self.cfg = cfg
+        self.topo = cfg.get("topo", "switch")
         self.sim = Simulation()
         net = self.sim.network
         n = cfg["n"]
-        sw = Switch.from_config({"type": "switch", "hostname": "sw", "num_ports": max(n, 2) + 1, "start_up_duration": 0})
-        sw.power_on()
         self.nodes = []
-        for i in range(n):
-            c = Computer.from_config({"type": "computer", "hostname": f"n{i}", "ip_address": ip_of(i),
-                                      "subnet_mask": "255.255.255.0", "start_up_duration": 0, "shut_down_duration": cfg["sd"]})
-            c.power_on()
-            net.add_node(c)
-            self.nodes.append(c)
-        net.add_node(sw)
-        for i, c in enumerate(self.nodes):
-            net.connect(c.network_interface[1], sw.network_interface[i + 1])
+        self.router = None
+        if self.topo == "routed":
+            # every host alone in its own subnet behind one router: all terminal traffic crosses the router's ACL
+            from primaite.simulator.network.hardware.nodes.network.router import ACLAction, Router
+            from primaite.utils.validation.ip_protocol import PROTOCOL_LOOKUP
+            from primaite.utils.validation.port import PORT_LOOKUP
+            r = Router.from_config({"type": "router", "hostname": "router", "num_ports": max(n, 2), "start_up_duration": 0})
+            r.power_on()
+            for i in range(n):
+                r.configure_port(i + 1, f"10.0.{i + 1}.1", "255.255.255.0")
+                c = Computer.from_config({"type": "computer", "hostname": f"n{i}", "ip_address": ip_of(i, "routed"),
+                                          "subnet_mask": "255.255.255.0", "default_gateway": f"10.0.{i + 1}.1",
+                                          "start_up_duration": 0, "shut_down_duration": cfg["sd"]})
+                c.power_on()
+                net.add_node(c)
+                self.nodes.append(c)
+            net.add_node(r)
+            for i, c in enumerate(self.nodes):
+                net.connect(c.network_interface[1], r.network_interface[i + 1])
+                r.enable_port(i + 1)
+            r.acl.add_rule(action=ACLAction.PERMIT, src_port=PORT_LOOKUP["ARP"], dst_port=PORT_LOOKUP["ARP"], position=22)
+            r.acl.add_rule(action=ACLAction.PERMIT, protocol=PROTOCOL_LOOKUP["ICMP"], position=23)
+            r.acl.add_rule(action=ACLAction.PERMIT, position=21)
+            self.router = r
+        else:
+            sw = Switch.from_config({"type": "switch", "hostname": "sw", "num_ports": max(n, 2) + 1, "start_up_duration": 0})
+            sw.power_on()
+            for i in range(n):
+                c = Computer.from_config({"type": "computer", "hostname": f"n{i}", "ip_address": ip_of(i),
+                                          "subnet_mask": "255.255.255.0", "start_up_duration": 0, "shut_down_duration": cfg["sd"]})
+                c.power_on()
+                net.add_node(c)
+                self.nodes.append(c)
+            net.add_node(sw)
+            for i, c in enumerate(self.nodes):
+                net.connect(c.network_interface[1], sw.network_interface[i + 1])
         for c in self.nodes:
             c.config.start_up_duration = cfg["su"]
             usm = c.user_session_manager
@@ -152,7 +187,26 @@ class Impl:
             for s in SVC:
                 c.software_manager.software[s].restart_duration = cfg["rd"]
         self.t = 0
-        self.ip_index = {ip_of(i): i for i in range(n)}
+        self.ip_index = {self.ip(i): i for i in range(n)}
+
+    def ip(self, i: int) -> str:
+        return ip_of(i, self.topo)
+
+    def blocked(self) -> List[Tuple[int, int]]:
+        """Directed pairs the router's ACL denies for the terminal's frames (TCP, port 22 both ways), read back from the ACL
+        itself: a DENY rule above the catch-all PERMIT whose address pair is two hosts and whose protocol / ports admit SSH."""
+        if self.router is None:
+            return []
+        out = []
+        for rule in self.router.acl.acl[:21]:
+            if rule is None or rule.action.name != "DENY" or rule.src_ip_address is None or rule.dst_ip_address is None:
+                continue
+            if rule.protocol not in (None, "tcp") or rule.src_port not in (None, 22) or rule.dst_port not in (None, 22):
+                continue
+            x, y = self.ip_index.get(str(rule.src_ip_address)), self.ip_index.get(str(rule.dst_ip_address))
+            if x is not None and y is not None:
+                out.append((x, y))
+        return out
 
     # -- observation
     def snap(self) -> dict:
@@ -174,7 +228,7 @@ class Impl:
                 "files": files,
                 "max": usm.max_remote_sessions,
             })
-        return {"nodes": nodes, "t": self.t}
+        return {"nodes": nodes, "t": self.t, "blk": self.blocked()}
 
     # -- operations
     def _req(self, i: int, path: list) -> str:
@@ -197,13 +251,13 @@ class Impl:
         if k == "lcmd":
             return ["service", "terminal", "send_local_command", c["u"], c["p"], {"command": self.cmd_request(node, c.get("cmd", FILE))}]
         if k == "rlogin":
-            return ["service", "terminal", "node_session_remote_login", c["u"], c["p"], ip_of(c["y"])]
+            return ["service", "terminal", "node_session_remote_login", c["u"], c["p"], self.ip(c["y"])]
         if k == "rcmd":
-            return ["service", "terminal", "send_remote_command", ip_of(c["y"]), {"command": self.cmd_request(c["y"], c.get("cmd", FILE))}]
+            return ["service", "terminal", "send_remote_command", self.ip(c["y"]), {"command": self.cmd_request(c["y"], c.get("cmd", FILE))}]
         if k == "rlogoff":
-            return ["service", "terminal", "remote_logoff", ip_of(c["y"])]
+            return ["service", "terminal", "remote_logoff", self.ip(c["y"])]
         if k == "usmlogin":
-            return ["service", "user-session-manager", "remote_login", c["u"], c["p"], ip_of(c["peer"])]
+            return ["service", "user-session-manager", "remote_login", c["u"], c["p"], self.ip(c["peer"])]
         if k == "usmlogout":
             return ["service", "user-session-manager", "remote_logout", _SessionRef(self, node, c["i"])]
         if k == "svc":
@@ -214,8 +268,12 @@ class Impl:
 
     def apply(self, op: dict) -> str:
         k = op["op"]
-        if k in ("llogin", "llogout", "enable") and op["y"] >= len(self.nodes):
+        if k in ("llogin", "llogout", "enable", "cfguser") and op["y"] >= len(self.nodes):
             return "unreachable"
+        if k == "cfguser":   # how Node.__init__ / PrimaiteGame.from_config load the configured users
+            ok = self.nodes[op["y"]].user_manager.add_user(username=op["u"], password=op["p"], is_admin=op["admin"],
+                                                           bypass_can_perform_action=True)
+            return "success" if ok else "failure"
         if k == "llogin":
             return "success" if self.nodes[op["y"]].local_login(op["u"], op["p"]) else "failure"
         if k == "llogout":
@@ -227,8 +285,31 @@ class Impl:
             self.sim.apply_timestep(self.t)
             self.sim.pre_timestep(self.t)
             return "success"
+        if k == "block":
+            return self.block(op)
         node = exec_node(op)
         return self._req(node, _resolve(self.cmd_request(node, op)))
+
+
+    def block(self, op: dict) -> str:
+        """One ACL position per directed pair (decoys use their own); through the router's own `acl` requests.
+        how = "pair": every protocol between the two addresses; "ssh": TCP port 22 only; "decoy": TCP port 80 only (blocks nothing
+        the terminal sends: the model line is `noop`)."""
+        x, y, n = op["x"], op["y"], len(self.nodes)
+        how = op.get("how", "pair")
+        pos = 1 + x * n + y + (9 if how == "decoy" else 0)
+        acl = self.router.acl
+        if acl.acl[pos] is not None:
+            r = self.sim.apply_request(["network", "node", "router", "acl", "remove_rule", pos])
+            if r.status != "success":
+                return "rig-error"
+        if op["on"]:
+            proto, port = ("ALL", "ALL") if how == "pair" else ("TCP", "HTTP" if how == "decoy" else "SSH")
+            r = self.sim.apply_request(["network", "node", "router", "acl", "add_rule", "DENY", proto, self.ip(x), "NONE", port,
+                                        self.ip(y), "NONE", port, pos])
+            if r.status != "success":
+                return "rig-error"
+        return "success"
 
 
 class _SessionRef:
@@ -271,7 +352,9 @@ def render(status: str, snap: dict) -> str:
         files = ",".join(str(f) for f in nd["files"])
         parts.append(f"{nd['power']} nic={int(nd['nic'])} T={nd['T']} UM={nd['UM']} USM={nd['USM']} users=[{users}] loc={loc} "
                      f"rem=[{rem}] conns=[{conns}] files=[{files}]")
-    return f"{status} | " + " ; ".join(parts) + f" ; t={snap['t']} stuck=0"
+    k = len(snap["nodes"])
+    blk = "/".join("".join("1" if (x, y) in snap.get("blk", []) else "0" for y in range(k)) for x in range(k))
+    return f"{status} | " + " ; ".join(parts) + f" ; t={snap['t']} stuck=0 blk={blk}"
 
 
 _ID = re.compile(r"#([0-9a-f-]+)")
@@ -335,18 +418,27 @@ def walk(op: dict, before: dict):
     return ok, cur, c, local_logins
 
 
+HALF_OPEN = {"n": 0}
+
+
+def ctr_half_open(case: dict):
+    """count (for the evidence histogram) logins that opened a session on the target while the client was told `failure`"""
+    HALF_OPEN["n"] += 1
+
+
 def oracle(case: dict, snaps: List[dict], stats: List[str]) -> Optional[Tuple[dict, str, int]]:
     """C16 evaluated directly on what the implementation did (independent of the Lean model).
     Returns (signature, message, op index) for the first failure."""
     ops = number_commands(case["ops"])
     ever: List[set] = [set() for _ in snaps[0]["nodes"]]   # remote session ids ever seen live per node
     dead: List[set] = [set() for _ in snaps[0]["nodes"]]
+    orphans: List[Tuple[int, str]] = []                    # (target, session id) of logins whose reply was dropped
     for i, (op, st) in enumerate(zip(ops, stats)):
         if st.startswith("raised"):
             return ({"kind": "raised", "op": op["op"], "exc": st.split(":")[1]}, f"{op_line(op)} raised {st}", i)
         before, after = snaps[i], snaps[i + 1]
         k = op["op"]
-        if k in ("tick", "llogin", "llogout", "enable"):
+        if k in ("tick", "llogin", "llogout", "enable", "block", "cfguser"):
             ok_chain, final, inner, llogins = False, None, {"op": k}, []
         else:
             ok_chain, final, inner, llogins = walk(op, before)
@@ -385,6 +477,10 @@ def oracle(case: dict, snaps: List[dict], stats: List[str]) -> Optional[Tuple[di
             if not any(adm and not d for _, _, d, adm in a["users"]):
                 return ({"kind": "no-enabled-admin", "op": k, "nested": nested},
                         f"op {i} {op_line(op)}: node {j} has no enabled admin", i)
+            # accounts are never removed, renamed, demoted or promoted: the old list is a prefix of the new one (name, admin flag)
+            if [(u, adm) for u, _, _, adm in a["users"]][:len(b["users"])] != [(u, adm) for u, _, _, adm in b["users"]]:
+                return ({"kind": "account-removed-or-flag-changed", "op": k}, f"op {i} {op_line(op)}: accounts of node {j} were "
+                        f"removed / reordered / their admin flag changed", i)
             # a password change ends every session of the user on that node (whoever asked for it, at whatever depth)
             for (u, pw, _, _) in a["users"]:
                 was = next((x for x in b["users"] if x[0] == u), None)
@@ -408,13 +504,39 @@ def oracle(case: dict, snaps: List[dict], stats: List[str]) -> Optional[Tuple[di
             b = before["nodes"][op["y"]]
             if not _cred_ok(b, op["u"], op["p"]):
                 return ({"kind": "login-without-valid-credentials", "op": k}, f"op {i} {op_line(op)} answered success", i)
-        # the answer of a remote command tells what happened on the target
+        # the answer of a remote command tells what happened on the target: success only if executed; an executed command is
+        # answered success unless the answer could not travel back (reply direction blocked between the hosts)
         if k == "rcmd" and op.get("cmd", FILE)["op"] == "file":
             y = op["y"]
             changed = y < len(before["nodes"]) and after["nodes"][y]["files"] != before["nodes"][y]["files"]
-            if (st == "success") != changed:
+            reply_blocked = (y, op["x"]) in before.get("blk", [])
+            if (st == "success" and not changed) or (changed and st != "success" and not reply_blocked):
                 return ({"kind": "remote-command-answer-wrong", "op": k, "answer": st, "executed": changed},
                         f"op {i} {op_line(op)} answered {st} but the command was {'executed' if changed else 'not executed'}", i)
+        # the answer of a login tells what happened: success => the client holds a connection whose id is a session of the target;
+        # a session opened on the target although the client was told `failure` only if the answer could not travel back
+        if k == "rlogin":
+            x, y = op["x"], op["y"]
+            if st == "success":
+                ids_y = {r[0] for r in after["nodes"][y]["rem"]} if y < len(after["nodes"]) else set()
+                newc = [c for c in after["nodes"][x]["conns"] if c not in before["nodes"][x]["conns"]]
+                if not any(cid in ids_y and peer == y for cid, peer in newc) or (x, y) in before.get("blk", []) \
+                        or (y, x) in before.get("blk", []):
+                    return ({"kind": "login-answer-wrong", "op": k, "answer": st},
+                            f"op {i} {op_line(op)} answered success without a client connection on a live session / over a blocked path", i)
+            elif y < len(before["nodes"]) and x < len(before["nodes"]) and \
+                    len(after["nodes"][y]["rem"]) > len(before["nodes"][y]["rem"]):
+                if (y, x) not in before.get("blk", []) and before["nodes"][x]["T"] == "RUNNING":
+                    return ({"kind": "login-answer-wrong", "op": k, "answer": st},
+                            f"op {i} {op_line(op)} answered {st} although the target opened a session and the reply path was open", i)
+                ctr_half_open(case)
+                orphans += [(y, r[0]) for r in after["nodes"][y]["rem"] if r[0] not in {q[0] for q in before["nodes"][y]["rem"]}]
+        # a session whose client never learnt of it: no node but the target ever holds a connection with its id
+        for (oy, oid) in orphans:
+            for j, a in enumerate(after["nodes"]):
+                if j != oy and any(cid == oid for cid, _ in a["conns"]):
+                    return ({"kind": "orphan-session-got-a-client", "op": k}, f"op {i} {op_line(op)}: node {j} holds a connection "
+                            f"with the id of a session of node {oy} whose login was answered failure", i)
         if k == "chpw" and st == "success":
             a = after["nodes"][op["y"]]
             if any(r[1] == op["u"] for r in a["rem"]) or (a["loc"] is not None and a["loc"][1] == op["u"]):
@@ -428,13 +550,34 @@ def oracle(case: dict, snaps: List[dict], stats: List[str]) -> Optional[Tuple[di
                 if j != y and any(c == cid for c, _ in a["conns"]):
                     return ({"kind": "logoff-left-client-connection", "op": k}, f"op {i} {op_line(op)}: node {j} still holds the "
                             f"connection", i)
-        # time-out: after a tick no session idle for >= timeout steps is left
+        # time-out, each kind with ITS OWN configured number of steps: after a tick no session idle for >= timeout steps is left,
+        # and a tick ends no session earlier (a tick does nothing else to sessions)
         if k == "tick":
-            for j, a in enumerate(after["nodes"]):
-                if any(l + case["cfg"]["rto"] <= after["t"] for _, _, l, _ in a["rem"]):
-                    return ({"kind": "timeout-missed", "op": k}, f"op {i}: node {j} keeps a remote session past its time-out", i)
-                if a["loc"] is not None and a["loc"][2] + case["cfg"]["lto"] <= after["t"]:
-                    return ({"kind": "timeout-missed", "op": k}, f"op {i}: node {j} keeps a local session past its time-out", i)
+            rto, lto = case["cfg"]["rto"], case["cfg"]["lto"]
+            for j, (b, a) in enumerate(zip(before["nodes"], after["nodes"])):
+                if any(l + rto <= after["t"] for _, _, l, _ in a["rem"]):
+                    return ({"kind": "timeout-missed", "session": "remote"}, f"op {i}: node {j} keeps a remote session past its "
+                            f"time-out ({rto} steps)", i)
+                if a["loc"] is not None and a["loc"][2] + lto <= after["t"]:
+                    return ({"kind": "timeout-missed", "session": "local"}, f"op {i}: node {j} keeps a local session past its "
+                            f"time-out ({lto} steps)", i)
+                kept = {r[0] for r in a["rem"]}
+                if any(r[0] not in kept and r[2] + rto > after["t"] for r in b["rem"]):
+                    return ({"kind": "timeout-early", "session": "remote"}, f"op {i}: node {j} ended a remote session idle for "
+                            f"fewer than its {rto} steps", i)
+                if b["loc"] is not None and a["loc"] is None and b["loc"][2] + lto > after["t"]:
+                    return ({"kind": "timeout-early", "session": "local"}, f"op {i}: node {j} ended a local session idle for "
+                            f"fewer than its {lto} steps", i)
+        # the inactivity clock: `last_active_step` of a session changes only by a terminal command (accepted on that session) and only
+        # to the current step; the clock of a local session is never moved
+        for j, (b, a) in enumerate(zip(before["nodes"], after["nodes"])):
+            was = {r[0]: r[2] for r in b["rem"]}
+            for r in a["rem"]:
+                if r[0] in was and was[r[0]] != r[2] and (k != "rcmd" and k != "lcmd" or r[2] != before["t"]):
+                    return ({"kind": "clock-moved", "op": k}, f"op {i} {op_line(op)} moved the inactivity clock of a remote session "
+                            f"of node {j}", i)
+            if b["loc"] is not None and a["loc"] is not None and b["loc"][0] == a["loc"][0] and b["loc"][2] != a["loc"][2]:
+                return ({"kind": "clock-moved", "op": k}, f"op {i} {op_line(op)} moved the clock of the local session of node {j}", i)
     return None
 
 
@@ -442,7 +585,8 @@ def oracle(case: dict, snaps: List[dict], stats: List[str]) -> Optional[Tuple[di
 def gen_cfg(rng: Rng) -> dict:
     # start-up / shut-down duration 0 = the node changes state inside the request (DESIGN F-14 and its reset twin are repaired)
     return {"n": rng.choice([2, 3, 3]), "su": rng.choice([0, 1, 1, 2]), "sd": rng.choice([0, 1, 1, 2]), "rd": rng.choice([1, 2]),
-            "max": rng.choice([1, 2, 3]), "lto": rng.choice([2, 3, 5]), "rto": rng.choice([2, 3, 4, 6])}
+            "max": rng.choice([1, 2, 3]), "lto": rng.choice([2, 3, 5]), "rto": rng.choice([2, 3, 4, 6]),
+            "topo": rng.choice(["switch", "routed"])}
 
 
 def _creds(rng: Rng, known: Dict[int, Dict[str, str]], y: int):
@@ -503,6 +647,8 @@ def gen_op(rng: Rng, cfg: dict, known: Dict[int, Dict[str, str]], malformed: boo
     if malformed and rng.chance(1, 3):
         y = rng.choice([n, n + 1])          # an address nobody owns
     u, p = _creds(rng, known, y)
+    if cfg.get("topo") == "routed" and rng.chance(1, 10):
+        return gen_block(rng, cfg)
     r = rng.below(100)
     if r < 14:
         return {"op": "rlogin", "x": x, "y": y, "u": u, "p": p}
@@ -516,8 +662,10 @@ def gen_op(rng: Rng, cfg: dict, known: Dict[int, Dict[str, str]], malformed: boo
         return {"op": "adduser", "y": y, "u": rng.choice(USERS + ADMINS), "p": rng.choice(PASSWORDS), "admin": rng.chance(1, 2)}
     if r < 64:
         return {"op": "disable", "y": y, "u": u}
-    if r < 66:
+    if r < 65:
         return {"op": "enable", "y": y, "u": u}
+    if r < 66:
+        return {"op": "cfguser", "y": y, "u": rng.choice(USERS + ADMINS), "p": rng.choice(PASSWORDS), "admin": rng.chance(1, 2)}
     if r < 72:
         return {"op": "chpw", "y": y, "u": u, "old": p, "new": rng.choice(PASSWORDS)}
     if r < 76:
@@ -541,9 +689,50 @@ def gen_op(rng: Rng, cfg: dict, known: Dict[int, Dict[str, str]], malformed: boo
     return {"op": "reset", "y": y}
 
 
+def gen_block(rng: Rng, cfg: dict, on: Optional[bool] = None) -> dict:
+    n = cfg["n"]
+    x = rng.below(n)
+    y = (x + 1 + rng.below(n - 1)) % n
+    return {"op": "block", "x": x, "y": y, "on": rng.chance(3, 5) if on is None else on, "how": rng.choice(["pair", "ssh", "ssh", "decoy"])}
+
+
+def transport_story(rng: Rng, cfg: dict) -> List[dict]:
+    """Routed topology: a session between x and y with one direction of the path blocked at the moment of the login, of a command,
+    of the logoff or of the time-out notification; then the path is opened again and the (stale / half-open) ends are used."""
+    n = cfg["n"]
+    y = rng.below(n)
+    x = (y + 1 + rng.below(n - 1)) % n
+    how = rng.choice(["pair", "ssh"])
+    login = {"op": "rlogin", "x": x, "y": y, "u": "admin", "p": "admin"}
+    cmd = {"op": "rcmd", "x": x, "y": y, "cmd": dict(FILE)}
+    back = {"op": "block", "x": y, "y": x, "on": True, "how": how}
+    forth = {"op": "block", "x": x, "y": y, "on": True, "how": how}
+    kind = rng.below(6)
+    idle = [{"op": "tick"}] * rng.below(min(2, cfg["rto"] - 1) + 1)     # so that the session's clock differs from the current step
+    login_idle = [login] + idle
+    if kind == 0:      # login whose reply is dropped: session on the target, the client does not know it
+        ops = [back] + [login] * rng.range(1, cfg["max"] + 1) + [dict(back, on=False), cmd, login, cmd]
+    elif kind == 1:    # command whose answer is dropped
+        ops = login_idle + [back, cmd, cmd, dict(back, on=False), cmd]
+    elif kind == 2:    # logoff that never reaches the target: the session waits for its time-out
+        ops = login_idle + [forth, {"op": "rlogoff", "x": x, "y": y}, dict(forth, on=False), cmd, login] + [{"op": "tick"}] * cfg["rto"]
+    elif kind == 3:    # time-out whose notification is dropped: the client keeps a stale connection
+        ops = [login, back] + [{"op": "tick"}] * cfg["rto"] + [dict(back, on=False), cmd, login, cmd]
+    elif kind == 4:    # request direction blocked: nothing reaches the target
+        ops = [forth, login, dict(forth, on=False)] + login_idle + [forth, cmd, {"op": "tick"}, dict(forth, on=False), cmd]
+    else:              # password change / direct logout on the target while the disconnect message cannot travel
+        ops = [login, back, rng.choice([{"op": "chpw", "y": y, "u": "admin", "old": "admin", "new": "pw1"},
+                                        {"op": "usmlogout", "y": y, "i": 0}]), dict(back, on=False), cmd,
+               {"op": "rlogin", "x": x, "y": y, "u": "admin", "p": "pw1"}, cmd]
+    return ops
+
+
 def track(known: Dict[int, Dict[str, str]], op: dict):
     """Optimistic bookkeeping of credentials so that later operations are mostly valid."""
-    if op["op"] in ("tick", "llogin", "llogout", "enable"):
+    if op["op"] in ("tick", "llogin", "llogout", "enable", "block"):
+        return
+    if op["op"] == "cfguser":
+        known.setdefault(op["y"], {"admin": "admin"}).setdefault(op["u"], op["p"])
         return
     _, node, c, _ = walk_static(op)
     if c["op"] == "adduser":
@@ -602,6 +791,11 @@ def admin_story(rng: Rng, cfg: dict, known: Dict[int, Dict[str, str]]) -> List[d
             ops.append({"op": "tick"})
     for u in order[::-1]:
         ops.append(attack(u))
+        if rng.chance(1, 3):   # the other editors: overwrite attempts and a password change of an administrator
+            v = rng.choice(admins)
+            ops.append(rng.choice([{"op": "adduser", "y": y, "u": v, "p": "pw1", "admin": False},
+                                   {"op": "cfguser", "y": y, "u": v, "p": "pw1", "admin": False},
+                                   {"op": "chpw", "y": y, "u": v, "old": known[y][v], "new": known[y][v]}]))
     return ops
 
 
@@ -633,6 +827,10 @@ def gen_case(rng: Rng, max_ops: int = 30) -> dict:
         ops.append({"op": "rlogin", "x": 0, "y": 1, "u": "admin", "p": "admin"})
         ops.append({"op": "rcmd", "x": 0, "y": 1, "cmd": {"op": "rlogin", "y": 2, "u": "admin", "p": "admin"}})
         ops.append({"op": "rcmd", "x": 0, "y": 1, "cmd": {"op": "rcmd", "y": 2, "cmd": dict(FILE)}})
+    if cfg["topo"] == "routed" and rng.chance(1, 2):
+        for o in transport_story(rng, cfg):
+            track(known, o)
+            ops.append(o)
     for _ in range(rng.range(3, max_ops)):
         op = gen_op(rng, cfg, known, malformed)
         track(known, op)
@@ -670,6 +868,11 @@ def admin_alphabet() -> List[dict]:
         out.append({"op": "enable", "y": 1, "u": u})
     out.append({"op": "lcmd", "y": 1, "u": "adm2", "p": "pw2", "cmd": {"op": "disable", "u": "admin"}})
     out.append({"op": "adduser", "y": 1, "u": "adm3", "p": "pw1", "admin": True})
+    # every other editor aimed at the administrators: add_user with an existing name and is_admin=False (request and config API),
+    # a password change of an administrator
+    out.append({"op": "adduser", "y": 1, "u": "admin", "p": "pw1", "admin": False})
+    out.append({"op": "cfguser", "y": 1, "u": "adm2", "p": "pw1", "admin": False})
+    out.append({"op": "chpw", "y": 1, "u": "admin", "old": "admin", "new": "pw1"})
     return out
 
 
@@ -692,6 +895,23 @@ def session_alphabet() -> List[dict]:
         {"op": "rlogoff", "x": 0, "y": 1},
         {"op": "tick"},
         {"op": "svc", "y": 1, "s": "user-session-manager", "v": "stop"},
+    ]
+
+
+def route_alphabet() -> List[dict]:
+    """Bounded-exhaustive family on the routed topology (0 = client, 1 = target): both directions blocked / opened, login, command,
+    logoff, tick, password change on the target."""
+    return [
+        {"op": "block", "x": 0, "y": 1, "on": True, "how": "ssh"},
+        {"op": "block", "x": 0, "y": 1, "on": False, "how": "ssh"},
+        {"op": "block", "x": 1, "y": 0, "on": True, "how": "pair"},
+        {"op": "block", "x": 1, "y": 0, "on": False, "how": "pair"},
+        {"op": "rlogin", "x": 0, "y": 1, "u": "admin", "p": "admin"},
+        {"op": "rcmd", "x": 0, "y": 1},
+        {"op": "rlogoff", "x": 0, "y": 1},
+        {"op": "tick"},
+        {"op": "chpw", "y": 1, "u": "admin", "old": "admin", "new": "pw1"},
+        {"op": "rcmd", "x": 1, "y": 0},
     ]
 
 
